@@ -218,6 +218,11 @@ def runCtlMacro (s : Ctl.St) : List String → List String
       `h<heartbeat goroutine>c<closer>r<reconnecting>s<state>` after every action, initial state (heartbeat started) first
   ctlunit hb close | ctlunit close hb    the same letters for a fresh controlConn on which the heartbeat goroutine's
       first instruction resp. close() runs first (close first: the heartbeat goroutine then runs for good, KF-C17-4)
+  retry n=N fates=<o|t|p…>   one refill of an emptied size-1 pool under a reconnection policy with GetMaxRetries() = N, the
+      attempts' fates scripted (o connects, t fails retryably, p fails with a non-temporary *net.OpError; beyond the list: o)
+      → `res=… dials=… conns=… nil=… pick=…` (Retry.connect; N = 0 is predicted as the code behaves: a nil connection, KF-C17-5)
+  retryobs n=N dials=D nil=Z pick=P    its monitors for N ≥ 1: D ≤ N, no nil entry in pool.conns, Pick does not fault
+      (C17_connect_conn_or_error_partial, C17_connect_attempts_bounded)
   ctlobs closeret=B hbleft=N leaked=L stack=… open=O queryerr=… sched=…   monitors of one such scenario: Session.Close
       returns (C17_ctl_closer_never_stranded / C17_ctl_close_wait_bounded), the heartbeat goroutine is gone
       (C17_ctl_heartbeat_exits_partial: the closer's CAS found it started), nothing left, queries refused
@@ -282,6 +287,26 @@ def step (_ : Unit) (ws : List String) : Unit × String :=
       match acts.bind (Ctl.run Ctl.init) with
       | some s => showCtl (ctlSettle s 4)
       | none => "bad-op"
+  | "retry" :: r =>
+      match kv r "n", kvs r "fates" with
+      | some n, some fs =>
+        let cs := if fs == "-" then [] else fs.toList
+        let f : Nat → Retry.Dial := fun i => match cs[i]? with
+          | some 't' => .temp | some 'p' => .perm | _ => .ok
+        let (res, dials) := Retry.connect n f
+        let (c, z) := Retry.appended res
+        let (rs, pk) := match res with
+          | .conn _ => ("conn", "ok") | .err => ("err", "none") | .nilNoErr => ("nil", "nilderef")
+        s!"res={rs} dials={dials} conns={c} nil={z} pick={pk}"
+      | _, _ => "bad-op"
+  | "retryobs" :: r =>
+      match kv r "n", kv r "dials", kv r "nil", kvs r "pick" with
+      | some n, some d, some z, some pk =>
+        if d > n then s!"reject:attempts-{d}-of-{n}"
+        else if z > 0 then s!"reject:nil-connection-in-pool-{z}"
+        else if pk == "nilderef" then "reject:pick-dereferences-nil-connection"
+        else "accept"
+      | _, _, _, _ => "bad-op"
   | "ctlobs" :: r =>
       match kv r "closeret", kv r "hbleft", kv r "leaked", kv r "open", kvs r "queryerr" with
       | some c, some h, some l, some o, some q =>
